@@ -95,14 +95,14 @@ def main(tier):
                 st[k] = max(st[k], stb[k]) if k in ("states",) else st[k] + stb[k]
         st["per_depth_b2_snapshot_only"] = stb["per_depth"]
     else:
-        st = e2.explore(run, list(e2.SEEDS), D, B, trans_check=trans_check, phase_ops=True, odd=True)
+        st = e2.explore(run, list(e2.SEEDS), D, B, trans_check=trans_check, phase_ops=True, odd=True, max_states=250000)
     # warnings promoted to errors: a call that warns is then a rejected call and must be atomic as well
-    stw = e2.explore(run, list(e2.SEEDS), 2 if tier == "quick" else 3, 2, trans_check=trans_check_werror, phase_ops=True, werror=True)
+    stw = e2.explore(run, list(e2.SEEDS), 2 if tier == "quick" else 3, 2, trans_check=trans_check_werror, phase_ops=True, werror=True, max_states=None if tier == "quick" else 1500000)
     st["warnings_as_errors"] = {"states": stw["states"], "transitions": stw["transitions"], "rejected": stw["rejected"],
                                 "warning_rejections": {k[9:]: v for k, v in stw.items() if k.startswith("rejected:") and "Warning" in k}}
     if tier != "quick":
         _DEEP["on"] = False  # beyond depth 3 only the white-box snapshot is compared (reports are a function of it)
-        st2 = e2.explore(run, ["single", "mux", "rails"], 4, 1, trans_check=trans_check, phase_ops=True)
+        st2 = e2.explore(run, ["single", "mux", "rails"], 4, 1, trans_check=trans_check, phase_ops=True, max_states=1500000)
         for k in list(st2):
             if k.startswith("rejected") or k in ("states", "transitions"):
                 st[k] += st2[k]
